@@ -351,13 +351,13 @@ func runInter(c InterCase) ev.Verdict {
 		// the operation is complete once the refusal line has been shown; the prompt the device
 		// redraws after it may or may not have been read by then
 		upTo := want[:strings.Index(want, refusal)+len(refusal)]
-		if !strings.Contains(r.Result, upTo) || len(r.Result) > len(want)+4 {
+		if !strings.Contains(r.Result, upTo) {
 			return ev.Fail("result %q does not contain the dialogue up to the completion line %q", r.Result, upTo)
 		}
-	} else if !strings.Contains(r.Result, want) || len(r.Result) > len(want)+4 {
-		// "contains the whole dialogue": a stale byte or two of the previous exchange (the space
-		// after its prompt) may precede it
-		return ev.Fail("result %q does not contain exactly the whole dialogue %q", r.Result, want)
+	} else if !strings.Contains(r.Result, want) {
+		// "contains the whole dialogue" (what else the result may hold, e.g. stale bytes of the
+		// previous exchange, is not limited by the statement)
+		return ev.Fail("result %q does not contain the whole dialogue %q", r.Result, want)
 	}
 
 	v := ev.Verdict{OK: true, Classes: []string{fmt.Sprintf("events=%d", len(c.Events))}}
